@@ -630,6 +630,11 @@ def name_collision(case):
                 return f"two different enums {case['v1']} / {case['v2']} share the class {names} without a diagnostic"
         return None
     names = [m.class_info.name for m in models] + [e.class_info.name for e in enums]
+    if case["kind"] == "model-enum":
+        # three document items: object PetStatus, object Pet, inline enum Pet.status
+        if "PetStatus" not in [m.class_info.name for m in models] or not enums or len(set(names)) < 3:
+            return f"object schema PetStatus / inline enum Pet.status collapsed into {names} without a diagnostic"
+        return None
     if len(set(names)) < 2 or len(names) < 2:
         return f"two document items collapsed into the generated classes {names} without a diagnostic"
     return None
